@@ -1322,3 +1322,36 @@ def rule_special_branch_inquires_same_dd(ctx):
                 ctx.violated("SPECIALID", key, f.where(line), "the branch was chosen by HTPis_special(%s) but inquires `%s`: the special header that is read belongs to a different element" % (near[:40], y[:40]))
     ctx.floor("SPECIALID", 3, n, "(descriptor inquiries inside a special-element branch)")
     return n
+
+
+def rule_contiguous_fallback_excludes_external(ctx):
+    """EXTNOTHERE (C02): the data-information routines report where an object's bytes are *in this file*.  A routine that tells
+    storage kinds apart by `access_rec->special` and describes "everything else" as one contiguous block with
+    Hoffset/Hlength must first have set the external kind aside (a test against SPECIAL_EXT): for an external element those
+    two calls give the position and length in the external file, and the caller would be sent to offset 0 of the HDF file,
+    where the magic number is."""
+    from .codec import ast_walk
+    from .facts import int_name
+    prog = ctx.prog
+    n = 0
+    for f in prog.lib_funcs():
+        ast = f.raw.get("ast")
+        if not ast or not f.rel.endswith(("hdatainfo.c", "mfdatainfo.c")):
+            continue
+        tests_special = set()
+        for _b, _i, _s, x in f.nodes(True):
+            if x[0] == "bin" and x[1] in ("==", "!="):
+                for a_, b_ in ((x[2], x[3]), (x[3], x[2])):
+                    if kind(strip(a_)) == "mem" and strip(a_)[2] == "special" and int_name(b_):
+                        tests_special.add(int_name(b_))
+        uses_off = any(c[1] == "Hoffset" for _b, _i, _s, c in f.calls())
+        if not tests_special or not uses_off:
+            continue
+        n += 1
+        key = "EXTNOTHERE:%s" % f.name
+        if "SPECIAL_EXT" in tests_special:
+            ctx.holds("EXTNOTHERE", key, f.where(), "the external kind is set aside before the contiguous description (kinds tested: %s)" % ", ".join(sorted(tests_special)), nontrivial=True)
+        else:
+            ctx.violated("EXTNOTHERE", key, f.where(), "storage kinds are told apart by access_rec->special (%s) and the rest is described with Hoffset/Hlength, but SPECIAL_EXT is never tested: an external element is reported as a block of this file" % ", ".join(sorted(tests_special)))
+    ctx.floor("EXTNOTHERE", 1, n, "(data-information routines with a contiguous fallback)")
+    return n
